@@ -9,7 +9,7 @@
 //!        results (ids + distance bits) identical after drop + Memvid::open.
 use memvid_core::simd::l2_distance_simd;
 use memvid_core::vec::{VecDocument, VecIndexBuilder};
-use memvid_core::{Memvid, MemvidError, VecIndex, VecSearchHit};
+use memvid_core::{Memvid, MemvidError, PutOptions, VecIndex, VecSearchHit};
 use mvh::*;
 
 type Docs = Vec<(u64, Vec<f32>)>;
@@ -45,8 +45,15 @@ fn d64(q: &[f32], e: &[f32]) -> f64 {
 /// bit-identical embeddings / exactly equal f64 values with equal f32 distances, or separated by > 1e-5
 /// relative with strictly increasing f32 distances.  Only then is the exact model comparable id by id.
 fn order_comparable(docs: &Docs, q: &[f32], exact_ints: bool) -> bool {
-    if docs.iter().any(|(_, e)| e.len() != q.len() || e.iter().any(|x| !x.is_finite())) || q.iter().any(|x| !x.is_finite()) { return false; }
-    let mut v: Vec<(f64, f32, &Vec<f32>)> = docs.iter().map(|(_, e)| (d64(q, e), l2_distance_simd(q, e), e)).collect();
+    // ±inf components are outside the exact model; NaN components are modelled (distance NaN, sorted last)
+    if docs.iter().any(|(_, e)| e.len() != q.len() || e.iter().any(|x| x.is_infinite())) || q.iter().any(|x| x.is_infinite()) { return false; }
+    let q_nan = q.iter().any(|x| x.is_nan());
+    for (_, e) in docs {
+        let want_nan = q_nan || e.iter().any(|x| x.is_nan());
+        if l2_distance_simd(q, e).is_nan() != want_nan { return false; } // e.g. overflow inf - inf
+    }
+    let mut v: Vec<(f64, f32, &Vec<f32>)> = docs.iter().filter(|(_, e)| !q_nan && !e.iter().any(|x| x.is_nan()))
+        .map(|(_, e)| (d64(q, e), l2_distance_simd(q, e), e)).collect();
     v.sort_by(|a, b| a.0.partial_cmp(&b.0).unwrap());
     for w in v.windows(2) {
         let (a, b) = (&w[0], &w[1]);
@@ -64,8 +71,11 @@ fn order_comparable(docs: &Docs, q: &[f32], exact_ints: bool) -> bool {
     true
 }
 
+/// strictly closer in the order the (repaired) comparator implements: numbers by value, NaN last
+fn lt_ext(a: f32, b: f32) -> bool { (!a.is_nan() && b.is_nan()) || a < b }
+
 fn all_small_ints(docs: &Docs, q: &[f32]) -> bool {
-    docs.iter().flat_map(|(_, e)| e.iter()).chain(q.iter()).all(|x| x.fract() == 0.0 && x.abs() <= 1024.0)
+    docs.iter().flat_map(|(_, e)| e.iter()).chain(q.iter()).all(|x| x.is_nan() || (x.fract() == 0.0 && x.abs() <= 1024.0))
 }
 
 /// the property oracle on one result list
@@ -91,32 +101,29 @@ fn oracle(docs: &Docs, q: &[f32], k: usize, hits: &[VecSearchHit], sum: &mut Sum
         if !seen.insert(h.frame_id) { fail(sum, "duplicate-hit", format!("frame {}", h.frame_id)); }
     }
     let all: Vec<(u64, f32, f64)> = docs.iter().map(|(id, e)| (*id, l2_distance_simd(q, e), d64(q, e).sqrt())).collect();
-    if all.iter().any(|x| x.1.is_nan()) {
-        sum.branch("nan-distance");
-        return; // comparator is not a total order: nothing more is promised (theorem hypothesis NoNaN)
-    }
+    if all.iter().any(|x| x.1.is_nan()) { sum.branch("nan-distance"); }
     for w in dists.windows(2) {
-        if w[0] > w[1] { fail(sum, "hits-not-sorted", format!("{:e} before {:e}", w[0], w[1])); }
+        if lt_ext(w[1], w[0]) { fail(sum, "hits-not-sorted", format!("{:e} before {:e}", w[0], w[1])); break; }
     }
     if let Some(last) = hits.last() {
         let l32 = l2_distance_simd(q, &docs.iter().find(|(id, _)| *id == last.frame_id).unwrap().1);
         let l64 = d64(q, &docs.iter().find(|(id, _)| *id == last.frame_id).unwrap().1).sqrt();
         for (id, d32, dd) in &all {
             if seen.contains(id) { continue; }
-            if *d32 < l32 { fail(sum, "omitted-frame-strictly-closer", format!("omitted frame {id} at {:e} < last hit {} at {:e}", d32, last.frame_id, l32)); break; }
-            if *dd < l64 * (1.0 - 1e-5) { fail(sum, "omitted-frame-strictly-closer-f64", format!("omitted frame {id} at {:e} < last hit at {:e}", dd, l64)); break; }
+            if lt_ext(*d32, l32) { fail(sum, "omitted-frame-strictly-closer", format!("omitted frame {id} at {:e} < last hit {} at {:e}", d32, last.frame_id, l32)); break; }
+            if d32.is_finite() && l32.is_finite() && *dd < l64 * (1.0 - 1e-5) { fail(sum, "omitted-frame-strictly-closer-f64", format!("omitted frame {id} at {:e} < last hit at {:e}", dd, l64)); break; }
         }
         // f64 view of sortedness, ties may swap
-        let h64: Vec<f64> = hits.iter().map(|h| d64(q, &docs.iter().find(|(id, _)| *id == h.frame_id).unwrap().1).sqrt()).collect();
+        let h64: Vec<(f64, f32)> = hits.iter().zip(dists.iter()).map(|(h, d)| (d64(q, &docs.iter().find(|(id, _)| *id == h.frame_id).unwrap().1).sqrt(), *d)).collect();
         for w in h64.windows(2) {
-            if w[0] > w[1] * (1.0 + 1e-5) + 1e-30 { fail(sum, "hits-not-sorted-f64", format!("{:e} before {:e}", w[0], w[1])); }
+            if w[0].1.is_finite() && w[1].1.is_finite() && w[0].0 > w[1].0 * (1.0 + 1e-5) + 1e-30 { fail(sum, "hits-not-sorted-f64", format!("{:e} before {:e}", w[0].0, w[1].0)); break; }
         }
     } else if k > 0 && m > 0 && !q.is_empty() {
         fail(sum, "no-hits", "empty result".into());
     }
-    // complete reference: stable sort by (f32 distance, index position)
+    // complete reference: stable sort by (NaN last, f32 distance, index position)
     let mut refv: Vec<(f32, usize, u64)> = all.iter().enumerate().map(|(i, x)| (x.1, i, x.0)).collect();
-    refv.sort_by(|a, b| a.0.partial_cmp(&b.0).unwrap().then(a.1.cmp(&b.1)));
+    refv.sort_by(|a, b| a.0.is_nan().cmp(&b.0.is_nan()).then(a.0.partial_cmp(&b.0).unwrap_or(std::cmp::Ordering::Equal)).then(a.1.cmp(&b.1)));
     let want: Vec<u64> = refv.iter().take(k).map(|x| x.2).collect();
     let got: Vec<u64> = hits.iter().map(|h| h.frame_id).collect();
     if want != got && !q.is_empty() {
@@ -124,6 +131,7 @@ fn oracle(docs: &Docs, q: &[f32], k: usize, hits: &[VecSearchHit], sum: &mut Sum
     }
     if refv.windows(2).take(k.saturating_sub(1)).any(|w| w[0].0 == w[1].0) { sum.branch("tie-inside-topk"); }
     if k > 0 && k < m && refv[k - 1].0 == refv[k].0 { sum.branch("tie-at-cutoff"); }
+    if k > 0 && k < m && !refv[k - 1].0.is_nan() && refv[k].0.is_nan() { sum.branch("nan-just-below-cutoff"); }
 }
 
 // ------------------------------------------------------------------------------------------------
@@ -142,8 +150,7 @@ fn run_index_case(docs: &Docs, q: &[f32], k: usize, drv: &mut Driver, use_model:
         Err(e) => {
             if dims_ok || q.is_empty() {
                 let nan = docs.iter().any(|(_, e)| e.iter().any(|x| x.is_nan())) || q.iter().any(|x| x.is_nan());
-                if nan { sum.branch("nan-panic"); sum.notes.push(format!("sort_by panicked on NaN distances: {e}")); }
-                else { sum.oracle_violation("search-panics", e, case.clone()); }
+                sum.oracle_violation(if nan { "search-panics-on-nan-distance" } else { "search-panics" }, e, case.clone());
             } else { sum.branch("index-dim-mismatch-panic"); }
         }
         Ok(hits) => {
@@ -158,8 +165,7 @@ fn run_index_case(docs: &Docs, q: &[f32], k: usize, drv: &mut Driver, use_model:
         }
     }
     if use_model && (dims_ok || q.is_empty()) {
-        let finite = docs.iter().all(|(_, e)| e.iter().all(|x| x.is_finite())) && q.iter().all(|x| x.is_finite());
-        if finite && (q.is_empty() || order_comparable(docs, q, all_small_ints(docs, q))) {
+        if q.is_empty() || order_comparable(docs, q, all_small_ints(docs, q)) {
             let m = drv.ask(&format!("search {} {} {}", docs_wire(docs), vhex(q), k));
             if verbose { println!("model: {m}"); }
             sum.branch("model-compared");
@@ -193,7 +199,7 @@ fn run_codec_case(docs: &Docs, rng: &mut Rng, drv: &mut Driver, use_model: bool,
         let mut bytes = art.bytes.clone();
         match rng.below(5) {
             0 => { let n = rng.usize(0, bytes.len()); bytes.truncate(n); sum.branch("codec-truncated"); }
-            1 => { bytes.extend(rng.bytes(rng.usize(1, 9))); sum.branch("codec-extended"); }
+            1 => { let n = rng.usize(1, 9); bytes.extend(rng.bytes(n)); sum.branch("codec-extended"); }
             2 => { if !bytes.is_empty() { bytes[0] = bytes[0].wrapping_add(1); } sum.branch("codec-count-plus-one"); }
             3 => { if bytes.len() > 16 { bytes[16] = bytes[16].wrapping_sub(1); } sum.branch("codec-len-field-edit"); }
             _ => { sum.branch("codec-intact"); }
@@ -256,7 +262,14 @@ fn run_file_case(c: &FileCase, drv: &mut Driver, use_model: bool, sum: &mut Summ
             for (ci, upto) in c.commits.iter().enumerate() {
                 while next < *upto && next < c.embs.len() {
                     let before = next as u64; // one frame per put, ids in put order (checked after the commit)
-                    match mem.put_with_embedding(format!("document number {next} about topic {}", next * 7 + 1).as_bytes(), c.embs[next].clone()) {
+                    let payload = format!("document number {next} about topic {}", next * 7 + 1);
+                    // generated cases switch off the per-put extras (instant Tantivy commit, auto-tagging, date and
+                    // triplet extraction: ~1 s per put in a debug build); the embedding path is the same put_internal
+                    let res = if c.enable_first || next % 7 == 0 { mem.put_with_embedding(payload.as_bytes(), c.embs[next].clone()) } else {
+                        let opts = PutOptions { instant_index: false, auto_tag: false, extract_dates: false, extract_triplets: false, ..Default::default() };
+                        mem.put_with_embedding_and_options(payload.as_bytes(), c.embs[next].clone(), opts)
+                    };
+                    match res {
                         Ok(_) => { frame_of.push(Some(before)); if !c.embs[next].is_empty() { active.push((before, c.embs[next].clone())); } }
                         Err(e) => return Err(format!("put_with_embedding #{next}: {e}")),
                     }
@@ -265,7 +278,8 @@ fn run_file_case(c: &FileCase, drv: &mut Driver, use_model: bool, sum: &mut Summ
                 mem.commit().map_err(|e| format!("commit: {e}"))?;
                 let fc = mem.stats().map_err(|e| format!("stats: {e}"))?.frame_count;
                 if fc != next as u64 { return Err(format!("harness assumption broken: {next} puts but frame_count {fc}")); }
-                if c.enable_first || !active.is_empty() || any_commit_with_vec { any_commit_with_vec = true; }
+                // the index object exists once an embedding has been committed (enable_vec alone does not create it)
+                if !active.is_empty() || any_commit_with_vec { any_commit_with_vec = true; }
                 let mut deleted_any = false;
                 for (after, ord) in &c.deletes {
                     if *after == ci {
@@ -325,11 +339,10 @@ fn run_file_case(c: &FileCase, drv: &mut Driver, use_model: bool, sum: &mut Summ
         }
         if use_model {
             // abstract state: the manifest dimension is that of the first active document (0 -> none);
-            // the index exists iff a commit happened while vec was enabled
+            // the index exists iff an embedding was ever committed
             let st_docs = if vec_committed { docs_wire(&active) } else { "none".into() };
-            let finite = active.iter().all(|(_, e)| e.iter().all(|x| x.is_finite())) && q.iter().all(|x| x.is_finite());
             let enabled = c.enable_first || !c.embs.iter().all(|e| e.is_empty());
-            let comparable = q.len() != dim || m == 0 || (finite && order_comparable(&active, q, all_small_ints(&active, q)));
+            let comparable = q.len() != dim || m == 0 || order_comparable(&active, q, all_small_ints(&active, q));
             if comparable {
                 let line = format!("searchvec {} {} {} {} {}", if enabled { 1 } else { 0 }, if dim > 0 { dim.to_string() } else { "-".into() }, st_docs, vhex(q), k);
                 let mo = drv.ask(&line);
@@ -401,8 +414,9 @@ fn gen_dim(rng: &mut Rng) -> usize {
 
 fn gen_file_case(rng: &mut Rng, thorough: bool) -> FileCase {
     let dim = gen_dim(rng);
-    let m = match rng.below(10) { 0 => 0, 1 => 1, 2 => 2, _ => rng.usize(1, if thorough { 120 } else { 30 }) };
-    let (embs, _) = gen_embs(rng, m, dim);
+    let m = match rng.below(10) { 0 => 0, 1 => 1, 2 => 2, _ => rng.usize(1, if thorough { 120 } else { 40 }) };
+    let (mut embs, _) = gen_embs(rng, m, dim);
+    if m > 0 && rng.chance(1, 10) { let i = rng.usize(0, m - 1); let j = rng.usize(0, dim - 1); embs[i][j] = f32::NAN; }
     let nb = rng.usize(1, 3).min(m.max(1));
     let mut commits: Vec<usize> = (0..nb - 1).map(|_| rng.usize(0, m)).collect();
     commits.sort();
@@ -427,7 +441,7 @@ fn gen_file_case(rng: &mut Rng, thorough: bool) -> FileCase {
         } else { gen_query(rng, &embs, dim) };
         queries.push((q, gen_k(rng, m)));
     }
-    FileCase { embs, commits, deletes, enable_first: rng.chance(1, 3), queries }
+    FileCase { embs, commits, deletes, enable_first: rng.chance(1, 6), queries }
 }
 
 fn main() {
@@ -442,7 +456,7 @@ fn main() {
          (codec) builder bytes / decode incl. damaged bytes; non-trivial = at least one document and k > 0; distinct = documents+query+k+result");
     sum.expect_branches(&["k-lt-m", "k-eq-m", "k-gt-m", "tie-inside-topk", "tie-at-cutoff", "query-wrong-dimension", "reopen-identical",
         "multi-commit", "with-deletes", "model-compared", "model-skipped-rounding-sensitive-order", "empty-query", "codec-roundtrip",
-        "codec-truncated", "codec-extended", "nan-distance", "empty-index-ok"]);
+        "codec-truncated", "codec-extended", "nan-distance", "nan-just-below-cutoff", "empty-index-ok"]);
     if args.mode == "replay" {
         let case = load_replay(args.replay_file.as_ref().expect("replay file"));
         let input = case.get("input").unwrap_or(&case);
@@ -479,12 +493,22 @@ fn main() {
         queries: vec![(unit(1, 3), 4), (unit(0, 3), 9), (vec![0.0; 3], 2)] }, &mut drv, use_model, &mut sum, false);
     run_file_case(&FileCase { embs: vec![vec![3.0, 4.0]], commits: vec![1], deletes: vec![(0, 0)], enable_first: false,
         queries: vec![(vec![0.0, 0.0], 1), (vec![0.0], 1)] }, &mut drv, use_model, &mut sum, false);
+    // witnesses of the NaN defect (unrepaired comparator `unwrap_or(Equal)`): NaN frame 7 lands in the middle of the
+    // ranking / a closer frame is omitted; after /verif/fixes/C13.diff NaN distances sort last
+    {
+        let mut embs: Vec<Vec<f32>> = (0..40).map(|i| vec![i as f32, 1.0]).collect();
+        embs[7][0] = f32::NAN;
+        run_file_case(&FileCase { embs: embs.clone(), commits: vec![40], deletes: vec![], enable_first: false,
+            queries: vec![(vec![3.0, 1.0], 40), (vec![3.0, 1.0], 8), (vec![0.0, 1.0], 5), (vec![f32::NAN, 1.0], 3)] }, &mut drv, use_model, &mut sum, false);
+        let docs: Docs = embs.into_iter().enumerate().map(|(i, e)| (i as u64, e)).collect();
+        run_index_case(&docs, &[3.0, 1.0], 8, &mut drv, use_model, &mut sum, false);
+    }
     run_index_case(&vec![(1, vec![7.0]), (2, vec![8.0]), (3, vec![f32::NAN]), (4, vec![1.0])], &[0.0], 1, &mut drv, use_model, &mut sum, false);
     run_index_case(&vec![(1, vec![1.0, 2.0]), (2, vec![1.0])], &[0.0, 0.0], 1, &mut drv, use_model, &mut sum, false);
     run_index_case(&vec![], &[0.0], 3, &mut drv, use_model, &mut sum, false);
 
     // ---- index level
-    let n_index = if args.thorough { 20000 } else { 2500 };
+    let n_index = args.extra.get("n-index").and_then(|s| s.parse().ok()).unwrap_or(if args.thorough { 20000 } else { 2500 });
     for _ in 0..n_index {
         let dim = gen_dim(&mut rng);
         let m = match rng.below(12) { 0 => 0, 1 => 1, 2 if args.thorough => rng.usize(200, 999), _ => rng.usize(1, if args.thorough { 200 } else { 60 }) };
@@ -505,7 +529,7 @@ fn main() {
         }
     }
     // ---- file level
-    let n_file = if args.thorough { 1500 } else { 120 };
+    let n_file = args.extra.get("n-file").and_then(|s| s.parse().ok()).unwrap_or(if args.thorough { 400 } else { 24 });
     for _ in 0..n_file {
         let c = gen_file_case(&mut rng, args.thorough);
         run_file_case(&c, &mut drv, use_model, &mut sum, false);
